@@ -1,0 +1,49 @@
+//go:build verif
+
+// Verification hooks for C16 (compiled only with -tags verif). Add-only: drives the
+// Encoder's pool of struct scratch lists (sfiRvFreeList.get / put) directly and reports
+// which backing arrays are pooled. Nothing here is referenced by the library itself.
+
+package codec
+
+// VerifC16Slist is a scratch-list pool of its own plus the lists it has handed out.
+type VerifC16Slist struct {
+	x     sfiRvFreeList
+	seen  []*sfiRv  // backing arrays in order of first sight: the index is the id
+	lists [][]sfiRv // by id
+}
+
+func (s *VerifC16Slist) idOf(v []sfiRv) int {
+	p := &v[:1][0]
+	for i, q := range s.seen {
+		if q == p {
+			return i
+		}
+	}
+	s.seen = append(s.seen, p)
+	s.lists = append(s.lists, v)
+	return len(s.seen) - 1
+}
+
+// Get calls sfiRvFreeList.get(n) and uses the list as kStruct does (n entries written);
+// it returns the id of the backing array handed out and its capacity.
+func (s *VerifC16Slist) Get(n int) (id, capacity int) {
+	v := s.x.get(n)[:n]
+	if cap(v) == 0 {
+		return -1, 0
+	}
+	id = s.idOf(v)
+	s.lists[id] = v
+	return id, cap(v)
+}
+
+// Put hands list id back (sfiRvFreeList.put), as kStruct does when it is done.
+func (s *VerifC16Slist) Put(id int) { s.x.put(s.lists[id]) }
+
+// Pool returns (id, capacity) of every pooled list, in pool order.
+func (s *VerifC16Slist) Pool() (out [][2]int) {
+	for _, v := range s.x {
+		out = append(out, [2]int{s.idOf(v), cap(v)})
+	}
+	return
+}
